@@ -19,7 +19,9 @@ def gen_params(rng, tier):
     spec = gen.gen_spec(rng, rng.randint(0, 3))
     g = lambda n: [[d, w] for d, w in gen.gen_stream(rng, spec, rng.randint(0, n), gate_rate=0.05)]  # noqa: E731
     return {"spec": spec, "sa": g(7) if rng.random() < 0.85 else [], "sb": g(7) if rng.random() < 0.9 else [],
-            "cb": g(4), "ca": g(4), "rev_b": rng.random() < 0.5}
+            "cb": g(4), "ca": g(4), "rev_b": rng.random() < 0.5,
+            # the left operand may be a container reloaded from JSON (it can still be merged into, not filled)
+            "reload_a": rng.random() < 0.25}
 
 
 def build(p):
@@ -34,6 +36,23 @@ def build(p):
         for node in gen.walk(spec_b):
             if node["k"] in ("Label", "UntypedLabel"):
                 node["order"] = "rev"
+    if p.get("reload_a"):
+        # a is reloaded from its own serialisation before the in-place merge
+        ops = [("new", "a1", spec), ("fills", "a1", S("sa")), ("roundtrip", "a", "a1"), ("new", "b", spec_b), ("fills", "b", S("sb")),
+               ("add", "s", "a", "b"), ("snap", "b0", "b")]
+        expect = []
+        ops.append(("iadd", "a", "b"))
+        expect.append(("reply", len(ops) - 1, "ok", "a += b raised for compatible operands (a reloaded from JSON)"))
+        ops.append(("checkeq", "a", "s", "content of a after a += b differs from (old a) + b (a reloaded from JSON)"))
+        ops.append(("checksnap", "b0", "b", "a += b changed b"))
+        expect.append(("pycheck", "same_object", "a"))
+        ops.append(("snap", "a1s", "a"))
+        ops.append(("fills", "b", S("cb")))
+        ops.append(("checksnap", "a1s", "a", "filling b after a += b changed a (shared state)"))
+        ops.append(("add", "s2", "s", "b"))
+        ops.append(("iadd", "a", "b"))
+        ops.append(("checkeq", "a", "s2", "second += differs from +"))
+        return {"ops": ops, "expect": expect}
     ops = [("new", "a", spec), ("fills", "a", S("sa")), ("new", "b", spec_b), ("fills", "b", S("sb")),
            ("add", "s", "a", "b"), ("snap", "b0", "b")]
     expect = []
